@@ -1439,7 +1439,40 @@ func (p *pathState) mayBeNil(v ssa.Value) bool {
 	if definitelyNonNil(rv) {
 		return false
 	}
+	if p.fallibleResult(rv) {
+		return true
+	}
 	return mayBeNil(rv, map[ssa.Value]bool{})
+}
+
+// fallibleResult: v is the error result of a call that has not been tested on this path and that is not handed an error
+// known to be non-nil (a wrapper): such a call reports its own success with nil, so returning it on a failure path loses
+// the failure whenever the call works (`return report(err)` where report returns the error of its write).
+func (p *pathState) fallibleResult(v ssa.Value) bool {
+	var call *ssa.Call
+	switch x := v.(type) {
+	case *ssa.Call:
+		call = x
+	case *ssa.Extract:
+		call, _ = x.Tuple.(*ssa.Call)
+	}
+	if call == nil || !isErrorType(v.Type()) {
+		return false
+	}
+	for _, a := range call.Common().Args {
+		if !isErrorType(a.Type()) {
+			continue
+		}
+		ra := p.resolve(a)
+		if isNil, ok := p.assume["nil:"+valKey(ra)]; (ok && !isNil) || definitelyNonNil(ra) {
+			return false
+		}
+	}
+	if call.Common().IsInvoke() {
+		// Err() of a context, scanner, ...: the state of an object, not the outcome of an action started here
+		return false
+	}
+	return true
 }
 
 // extraControlValues lets a rule ask the path searches to track further phis: values whose identity along a path matters
